@@ -275,7 +275,7 @@ def run(rep, prop, tier, seed, proof_broken=False):
                 rep.count("unmodelled-step:" + info["label"])
                 continue
             if g != want:
-                dis.append(dict(model=g, observed=want, **info))
+                dis.append(dict(model=g, observed_class=want, **info))
     rep.disagreements = len(dis)
     if lean_jobs:
         rep.sample(dict(request=lean_jobs[0][0], observed=lean_jobs[0][1]))
